@@ -92,6 +92,34 @@ pub fn grammar_soup(r: &mut Rng) -> Vec<u8> {
     out
 }
 
+/// Content-stream token soup: operators of the operator table with plausible and implausible operands, inline images with
+/// every spelling of the `ID` / data / `EI` framing (no data, one byte, EOLs of each kind), nested arrays and dictionaries.
+pub fn content_soup(r: &mut Rng) -> Vec<u8> {
+    const OPS: [&str; 73] = ["b", "B", "b*", "B*", "BDC", "BI", "BMC", "BT", "BX", "c", "cm", "CS", "cs", "d", "d0", "d1", "Do", "DP", "EI", "EMC", "ET", "EX", "f", "F", "f*", "G", "g", "gs", "h", "i", "ID", "j", "J", "K", "k", "l", "m", "M", "MP", "n", "q", "Q", "re", "RG", "rg", "ri", "s", "S", "SC", "sc", "SCN", "scn", "sh", "T*", "Tc", "Td", "TD", "Tf", "Tj", "TJ", "TL", "Tm", "Tr", "Ts", "Tw", "Tz", "v", "w", "W", "W*", "y", "'", "\""];
+    const OPERANDS: [&str; 24] = ["0", "1", "-1", "0.5", "2147483647", "99999999999", "/Name", "/F1", "/Im1", "/GS1", "/CS1", "/P1", "(text)", "<00ff>", "[1 2]", "[(a) -20 (b)]", "[]", "<< /MCID 0 >>", "<<>>", "true", "null", "1 0 R", "[[[[1]]]]", "/"];
+    let mut out = Vec::new();
+    let n = 1 + r.below(30);
+    for _ in 0..n {
+        if r.below(5) == 0 {
+            // inline image
+            out.extend_from_slice(b"BI");
+            out.extend_from_slice([&b" "[..], b"\n", b""][r.below(3) as usize]);
+            for kv in [&b"/W 1"[..], b"/H 1", b"/BPC 8", b"/CS /G", b"/F /AHx", b"/F [/A85 /Fl]", b"/IM true", b"/W 0", b"/H -1", b"/W 65536", b"/D [1 0]", b"/DP << /Predictor 12 /Columns 99999 >>"] { if r.below(3) == 0 { out.extend_from_slice(kv); out.push(b' '); } }
+            out.extend_from_slice([&b"ID"[..], b" ID", b"\nID"][r.below(3) as usize]);
+            out.extend_from_slice([&b" "[..], b"\n", b"\r\n", b"\r", b""][r.below(5) as usize]);
+            let dl = [0usize, 0, 1, 2, 5][r.below(5) as usize];
+            for _ in 0..dl { out.push(*r.pick(&[0u8, 0xff, b'E', b'I', b'\n', b' ', b'>', b'~', b'a'])); }
+            out.extend_from_slice([&b"\nEI"[..], b" EI", b"EI", b"\r\nEI", b"\nEI\n", b"", b"\nE I"][r.below(7) as usize]);
+            out.push(b' ');
+            continue;
+        }
+        for _ in 0..r.below(7) { out.extend_from_slice(r.pick(&OPERANDS).as_bytes()); out.push(*r.pick(&[b' ', b' ', b'\n', b'\t'])); }
+        out.extend_from_slice(r.pick(&OPS).as_bytes());
+        out.extend_from_slice([&b" "[..], b"\n", b"\r\n", b"%c\n"][r.below(4) as usize]);
+    }
+    out
+}
+
 /// Case `idx` (deterministic in (seed, idx)).
 pub fn make_case(sd: &Seeds, seed: u64, idx: u64) -> Case {
     let mut r = Rng::derive(seed, 1, idx);
@@ -135,7 +163,17 @@ pub fn make_case(sd: &Seeds, seed: u64, idx: u64) -> Case {
             let prefix: Vec<u8> = if s.draw(5) == 0 { vec![b'x'; s.draw(600) as usize] } else { vec![] };
             Case { bytes: richdoc::write(&objs, layout, &prefix), password: vec![], cfg, labels: format!("struct:{:?}:{}", layout, labs.join(";")), deep: idx % 50 == 3 }
         }
-        8 => Case { bytes: grammar_soup(&mut r), password: vec![], cfg, labels: "grammar".into(), deep: false },
+        8 if (idx / 10) % 2 == 0 => Case { bytes: grammar_soup(&mut r), password: vec![], cfg, labels: "grammar".into(), deep: false },
+        8 => {
+            // the rich document with its page content (and the form XObject / pattern streams) replaced by content-stream token soup
+            let mut objs = richdoc::objects();
+            for nr in [6u32, 9, 16, 17, 46] {
+                if nr != 6 && r.below(3) != 0 { continue; }
+                let soup = content_soup(&mut r);
+                if let Some((_, o)) = objs.iter_mut().find(|(n, _)| *n == nr) { if let crate::mkpdf::Obj::Stream(d, data) = o { d.retain(|(k, _)| k != b"Filter"); *data = soup; } }
+            }
+            Case { bytes: richdoc::write(&objs, Layout::Classic, b""), password: vec![], cfg, labels: "content".into(), deep: false }
+        }
         _ => {
             let k = r.below(sd.rich.len() as u64) as usize;
             let mut b = sd.rich[k].clone();
